@@ -54,24 +54,6 @@ fn c16_norm_max_nonzero_row() {
     kani::cover!(xi[1] == 0);
 }
 
-// l2, formula: sqrt uninterpreted but functional, so "row / sqrt(sum of squares)" is checked against the same sqrt
-// @unit class=bounded tier=thorough mem=heavy bound="rows=1,cols=2,|x|<=8 integer-valued f32, non-zero row" timeout=900 fns=linfa_preprocessing::norm_scaling::NormScaler::transform
-#[kani::proof]
-#[kani::unwind(7)]
-#[kani::stub(alloc::fmt::format, fmt_stub)]
-#[kani::stub(f32::sqrt, c16_sqrt32)]
-fn c16_norm_l2_nonzero_row() {
-    let (xi, xf, m) = c16_row_1x2();
-    let y: Array2<f32> = NormScaler::l2().transform(m);
-    assert!(y.dim() == (1, 2));
-    let norm = c16_sqrt32((xi[0] * xi[0] + xi[1] * xi[1]) as f32);
-    assert!(norm > 0.0);
-    assert!(y[(0, 0)] == xf[0] / norm && y[(0, 1)] == xf[1] / norm);                  // row / norm
-    assert!(!y[(0, 0)].is_nan() && !y[(0, 1)].is_nan());
-    kani::cover!(xi[0] == -3 && xi[1] == 4);
-    kani::cover!(xi[0] == 0);
-}
-
 // two rows (one column): every row is divided by ITS OWN norm - a fixed map applied row by row
 // @unit class=bounded tier=thorough mem=heavy bound="rows=2,cols=1,|x|<=8 integer-valued f32, non-zero rows, l1 and max" timeout=900 fns=linfa_preprocessing::norm_scaling::NormScaler::transform
 #[kani::proof]
@@ -91,7 +73,9 @@ fn c16_norm_two_rows() {
     kani::cover!(!use_l1 && a == 2 && b == -5);
 }
 
-// l2, unit norm: rows whose sum of squares is a perfect square h*h (witness h; IEEE sqrt is exact there)
+// l2: rows whose sum of squares is a perfect square h*h (witness h; IEEE sqrt is exact there): row / norm and unit norm.
+// (general rows: the expectation x / sqrt(ss) with an uninterpreted sqrt needs a second symbolic division, which CBMC's
+//  relational divider does not finish: 900 s timeout measured - not decided)
 // @unit class=bounded tier=thorough mem=heavy bound="rows=1,cols=2,|x|<=12 integer-valued f32, x0^2+x1^2 a perfect square > 0" timeout=900 fns=linfa_preprocessing::norm_scaling::NormScaler::transform
 #[kani::proof]
 #[kani::unwind(7)]
